@@ -682,12 +682,12 @@ def run_histories(ctx, terms):
 # ------------------------------------------------------------------ main
 def run(ctx):
     ctx.assumptions += [
-        "Go's net package (ParseIP, ResolveIPAddr, IP.String) and regexp matching are external: universally "
-        "quantified in the theorems, supplied per case from the running implementation in the correspondence",
+        "the name system (ResolveIPAddr) and regexp matching are external: universally quantified in the theorems, supplied per case "
+        "from the running implementation in the correspondence; ParseIP / IP.String are re-stated concretely (coq/C06/IPText.v) and compared with Go on every run",
         "G1 a string that SplitHostPort accepts is not an IP literal; G2 IP.String output has no brackets; "
         "G3 a returned zone is part of the host; G4 resolving the text of an address returns that address "
         "whatever the name system's state; G5 IP.String depends only on the To4-normal form "
-        "(hypotheses of C06_permitted_literal_unchanged / C06_dial_target_is_checked; G1 and G4 are also observed on every run)",
+        "(hypotheses of the general theorems C06_permitted_literal_unchanged / C06_dial_target_is_checked; G2-G5 are PROVED for the concrete text functions (C06_ip_string_no_brackets, C06_zone_law_concrete, C06_literal_law_concrete, C06_ip_string_norm) and G1 as C06_joined_text_not_a_literal, giving the hypothesis-free *_concrete theorems; G1 and G4 are also observed on every run)",
         "the Go in-package driver (DNS stub, dial recorder), the case generator, the Python policy oracle and "
         "the JSON->Gallina emitter are trusted",
     ]
